@@ -151,6 +151,15 @@ func (c Infraction) NewWorker(stats *engine.Stats) (engine.Worker, error) {
 	if r := st.Deliver(env.MsgCreateConsumer(A, "inf", env.ConsumerInit{}.Params("inf"), nil)); r.Err != nil {
 		return nil, r.Err
 	}
+	if c.Variant != "bulk" {
+		// a second launched consumer ("2"): pending changes of several consumers with different due times
+		if r := st.Deliver(env.MsgCreateConsumer(A, "inf", env.ConsumerInit{Spawn: st.Time()}.Params("inf"), nil)); r.Err != nil {
+			return nil, r.Err
+		}
+		if r := st.Deliver(env.MsgOptIn(p.Vals[0], "2", nil)); r.Err != nil {
+			return nil, r.Err
+		}
+	}
 	w.nCons = nLaunched + 1
 	w.root = &infNode{S: st}
 	blocks := 1
@@ -230,8 +239,11 @@ func (w *infWorker) build() {
 			return &x
 		}},
 	}
-	for _, cid := range []string{"0", "1"} {
+	for _, cid := range []string{"0", "1", "2"} {
 		for _, rq := range reqs {
+			if cid == "2" && (rq.name == "ds-only" || rq.name == "dt-only") {
+				continue
+			}
 			cid, rq := cid, rq
 			w.tab.Add(fmt.Sprintf("update(c%s,%s)", cid, rq.name), func(n engine.Node) (engine.Node, []V) {
 				x := n.(*infNode)
